@@ -366,3 +366,8 @@ func Threads(preemptionBound int) {}
 func Quiesce()                    { time.Sleep(50 * time.Millisecond) }
 func Yield()                      {}
 func Preemptions() int            { return 0 }
+
+// Feasible: under the symbolic executor, whether the condition CAN hold on the current path (a
+// satisfiability query; used where a property is a possibility, e.g. "the hash can tell these two
+// apart" with the hash functions uninterpreted). Natively it is the condition itself.
+func Feasible(b bool) bool { return b }
